@@ -7,6 +7,7 @@ package verifsim
 
 import (
 	"encoding/hex"
+	"encoding/json"
 	"fmt"
 	"net"
 	"time"
@@ -106,6 +107,7 @@ type UpReq struct {
 	Sends    []time.Duration
 	Answered bool // a matching response has been delivered to the UPF
 	AnsTried bool
+	abCounted bool
 	SMF      int
 	Msg      *PMsg
 }
@@ -230,6 +232,11 @@ func (s *Sim) step(a Action) {
 	idx := s.actNo
 	s.actNo++
 	s.res.Actions = append(s.res.Actions, a)
+	if s.verbose {
+		// streamed before execution so that the list survives a process crash
+		ab, _ := json.Marshal(a)
+		fmt.Printf("ACT %s\n", ab)
+	}
 	switch a.Op {
 	case "send":
 		if a.Msg == nil {
